@@ -2,7 +2,9 @@
 import os
 import sys
 
-from .. import hir, rtable, gatesem
+import itertools
+
+from .. import hir, rtable, gatesem, minirust
 from ..controls import fixture
 
 sys.path.insert(0, os.path.dirname(os.path.dirname(os.path.dirname(os.path.abspath(__file__)))))
@@ -24,6 +26,86 @@ def expected_tensor(kind):
     if g['cls'] == 'unknown':
         return ('nothing',)
     return ('panic',)     # parity-phase and the non-unitary kinds are not supported by the circuit evaluator: loud failure
+
+
+class HT(minirust.Obj):
+    """a small exact tensor for evaluating the comparison helpers: a shape and a flat list of integers"""
+
+    def __init__(self, dims, elems):
+        self.dims, self.elems = tuple(dims), list(elems)
+        ixs = list(itertools.product(*[range(d) for d in self.dims]))
+        minirust.Obj.__init__(self, 'Tensor', {
+            'dim': lambda a: self.dims, 'raw_dim': lambda a: self.dims, 'shape': lambda a: list(self.dims), 'ndim': lambda a: len(self.dims),
+            'len': lambda a: len(self.elems), 'iter': lambda a: list(self.elems), 'indexed_iter': lambda a: list(zip(ixs, self.elems)),
+            'clone': lambda a: self, 'view': lambda a: self, 'to_owned': lambda a: self, 'is_empty': lambda a: not self.elems,
+            'get': lambda a: minirust.some(self.elems[ixs.index(a[0])]) if a[0] in ixs else minirust.NONE})
+        self.ixs = ixs
+
+    def getitem(self, i):
+        if i in self.ixs:
+            return self.elems[self.ixs.index(i)]
+        raise minirust.NoEval('tensor index %r' % (i,))
+
+    def __mul__(self, k):
+        if isinstance(k, int) and not isinstance(k, bool):
+            return HT(self.dims, [x * k for x in self.elems])
+        if isinstance(k, HT) and k.dims == self.dims:
+            return HT(self.dims, [x * y for x, y in zip(self.elems, k.elems)])
+        raise minirust.NoEval('tensor product with %r' % (k,))
+
+    def __eq__(self, o):
+        return isinstance(o, HT) and o.dims == self.dims and o.elems == self.elems
+
+    def __ne__(self, o):
+        return not self == o
+    __hash__ = None
+
+    def __repr__(self):
+        return 'T%s%s' % (list(self.dims), self.elems)
+
+
+def _proportional(t0, t1):
+    """reference: equal up to a non-zero scalar"""
+    if t0.dims != t1.dims:
+        return False
+    z0, z1 = not any(t0.elems), not any(t1.elems)
+    if z0 or z1:
+        return z0 and z1
+    n = len(t0.elems)
+    return all(t0.elems[i] * t1.elems[j] == t0.elems[j] * t1.elems[i] for i in range(n) for j in range(n))
+
+
+def scalar_eq_semantics(f):
+    """evaluate scalar_eq on every pair of small integer tensors; returns {category: (ok, counterexample, n)} or raises NoEval"""
+    ps = [p for p in f['params'] if p.get('k') == 'Bind']
+    if len(ps) != 2:
+        raise minirust.NoEval('two operands expected')
+    vals = (-1, 0, 1, 2)
+    ts = {d: [HT(d, e) for e in itertools.product(vals, repeat=n)] for d, n in (((2,), 2), ((1, 2), 2), ((3,), 3))}
+    pairs = []
+    for d in ((2,), (3,)):
+        pairs += [(a, b) for a in ts[d] for b in ts[d]]
+    pairs += [(a, b) for a in ts[(2,)] for b in ts[(1, 2)]] + [(a, b) for a in ts[(1, 2)][::3] for b in ts[(3,)][::5]] + [(a, b) for a in ts[(3,)][::5] for b in ts[(2,)][::3]]
+    res = {}
+    for a, b in pairs:
+        if a.dims != b.dims:
+            cat = 'different dims -> false'
+        elif not any(a.elems) or not any(b.elems):
+            cat = 'both zero -> true; exactly one zero -> false'
+        else:
+            cat = 'non-zero case: equal up to a non-zero factor'
+        it = minirust.Interp(fuel=4000)
+        try:
+            got = it.ev(f['hir'], {ps[0]['id']: a, ps[1]['id']: b})
+        except minirust._Return as ex:
+            got = ex.v
+        if not isinstance(got, bool):
+            raise minirust.NoEval('result %r' % (got,))
+        ok, cex, n = res.get(cat, (True, None, 0))
+        if got != _proportional(a, b) and ok:
+            ok, cex = False, '%r vs %r answers %s' % (a, b, got)
+        res[cat] = (ok, cex, n + 1)
+    return res
 
 
 def scalar_eq_structure(f):
@@ -105,10 +187,12 @@ def _run_own(ck):
         got = table.get(v)
         if v == 'UnknownGate':
             ck.exception('to_tensor/UnknownGate', 'unknown gates are quietly ignored on both the tensor and the diagram side (documented)')
-        ck.ob('R-TABLE-tensor', 'to_tensor/' + v, got == want, ck.site(key), 'circuit evaluation of %s is %s, reference semantics %s' % (v, got, want), sample={'kind': v, 'descriptor': str(got)})
+        ck.ob3('R-TABLE-tensor', 'to_tensor/' + v, None if (got is not None and got[0] == '?' and want[0] != 'nothing') else got == want, ck.site(key),
+               'circuit evaluation of %s is %s, reference semantics %s' % (v, got, want), sample={'kind': v, 'descriptor': str(got)})
     ck.floor('R-TABLE-tensor', len(table), 21)
     reads = {v for v, d in table.items() if d[0] == 'diag' and d[2] == 'param'}
-    ck.ob('R-TABLE-tensor', 'to_tensor/phase-readers', reads == {'ZPhase', 'XPhase'}, ck.site(key), 'kinds whose tensor arm reads the gate phase: %s; only ZPhase and XPhase carry one' % sorted(reads))
+    unread = any(d[0] == '?' for d in table.values())
+    ck.ob3('R-TABLE-tensor', 'to_tensor/phase-readers', None if (unread and reads <= {'ZPhase', 'XPhase'}) else reads == {'ZPhase', 'XPhase'}, ck.site(key), 'kinds whose tensor arm reads the gate phase: %s; only ZPhase and XPhase carry one' % sorted(reads))
     fors = [n for n in hir.find(f['hir'], 'For') if any(x is m for x in hir.nodes(n['body']))]
     ok = False
     if len(fors) == 1:
@@ -129,9 +213,17 @@ def _run_own(ck):
     if not sk:
         ck.violation('R-PATH', 'CompareTensors/impl', 'tensor.rs', 'anchor-missing')
     else:
-        res = scalar_eq_structure(ck.fn(sk['scalar_eq']))
-        for name, ok in res.items():
-            ck.ob('R-PATH', 'scalar_eq/' + name, ok, ck.site(sk['scalar_eq']), 'scalar_eq no longer has the decision structure: %s' % name)
+        try:
+            sem = scalar_eq_semantics(ck.fn(sk['scalar_eq']))
+            for name, (ok, cex, n) in sorted(sem.items()):
+                ck.ob('R-PATH', 'scalar_eq/' + name, ok, ck.site(sk['scalar_eq']), 'scalar_eq evaluated on %d pairs of small exact tensors: %s, but equality up to a non-zero scalar says otherwise' % (n, cex),
+                      sample={'pairs': n})
+            ck.floor('R-PATH-scalar_eq-pairs', sum(x[2] for x in sem.values()), 4000)
+        except (minirust.NoEval, minirust.Proceed, TypeError, KeyError, IndexError) as ex:
+            # the evaluator declined: fall back on the syntactic reading; a shape it does not recognise either is undecided, not refuted
+            res = scalar_eq_structure(ck.fn(sk['scalar_eq']))
+            for name, ok in res.items():
+                ck.ob3('R-PATH', 'scalar_eq/' + name, True if ok else None, ck.site(sk['scalar_eq']), 'scalar_eq is neither evaluable (%s) nor of the known decision structure: %s' % (ex, name))
         cf = ck.fn(sk['compare'])
         tt = [c for c in hir.calls(cf['hir']) if c.get('k') == 'MethodCall' and c['name'] == 'to_tensor']
         eq = [n for n in hir.nodes(cf['hir']) if n.get('k') == 'Binary' and n['op'] == 'Eq']
